@@ -424,7 +424,10 @@ def run_c13(tier, seed, verdict, cov):
     nbase = 14 if tier == 'quick' else 160
     # candidates beyond the base selection: kept only if the root score RISES from one iteration to the next (then
     # an interruption can find the running iteration ahead of the last completed one: the "partial result" branch)
-    extra = pool[nbase:nbase + (60 if tier == 'quick' else 400)] + [(f, 4) for f in mates]
+    pm2 = run_harness(['mate-cands', '--seed', seed + 29, '--n', 40 if tier == 'quick' else 400, '--only', 'm2',
+                       '--seeds', os.path.join(ROOT, 'seeds')], timeout=6000)
+    m2s = [l.strip() for l in pm2.stdout.split('\n') if l.strip()]       # forced mates in two: the score jumps at iteration 3
+    extra = pool[nbase:nbase + (60 if tier == 'quick' else 400)] + [(f, 4) for f in mates] + [(f, 3) for f in m2s] + [(f, 4) for f in m2s[:10]]
     pool = pool[:nbase] + [(f, 4) for f in rng.sample(bench, 3 if tier == 'quick' else 12)]
     # sizes of the uninterrupted searches
     probe = [{'id': i, 'fen': f, 'hist': [], 'depth': dp, 'cache': 'fresh', 'group': i} for i, (f, dp) in enumerate(pool + extra)]
@@ -451,7 +454,7 @@ def run_c13(tier, seed, verdict, cov):
     for k, v in allsizes.items():
         if k in base_keys:
             sizes[k] = v
-        elif k in rising and nris < (6 if tier == 'quick' else 60) and v <= (2500 if tier == 'quick' else 60000):
+        elif k in rising and nris < (8 if tier == 'quick' else 60) and v <= (20000 if tier == 'quick' else 60000):
             sizes[k] = v
             nris += 1
     cov['positions_with_rising_root_score'] = len([k for k in sizes if k in rising])
@@ -463,7 +466,7 @@ def run_c13(tier, seed, verdict, cov):
     # interruptions, so that limits which are polled rarely or only deep in the tree are exercised too
     gid = max([c['group'] for c in cases] + [0])
     bigl = sorted(big.items(), key=lambda kv: 0 if kv[0] in rising else 1)       # rising root scores first
-    for (fen, depth), sz in bigl[:3 if tier == 'quick' else 20]:
+    for (fen, depth), sz in bigl[:6 if tier == 'quick' else 24]:
         gid += 1
         base = {'fen': fen, 'hist': [], 'depth': depth, 'group': gid, 'cache': 'fresh'}
         cases.append(dict(base))
